@@ -19,6 +19,8 @@ pub struct NetLink {
     pub params: LinkParams,
     pub bh_up: bool,
     pub bh_down: bool,
+    /// Handshake replies (REG2) towards the sender are lost on this path.
+    pub drop_reg2_down: bool,
     ctr_up: u64,
     ctr_down: u64,
 }
@@ -94,6 +96,7 @@ impl Env {
                 params: p.clone(),
                 bh_up: false,
                 bh_down: false,
+                drop_reg2_down: false,
                 ctr_up: 0,
                 ctr_down: 0,
             })
@@ -138,6 +141,7 @@ impl Env {
                 params: self.default_link.clone(),
                 bh_up: false,
                 bh_down: false,
+                drop_reg2_down: false,
                 ctr_up: 0,
                 ctr_down: 0,
             });
@@ -153,6 +157,10 @@ impl Env {
         if down {
             l.bh_down = on;
         }
+    }
+
+    pub fn set_drop_reg2(&mut self, link: usize, on: bool) {
+        self.link_mut(link).drop_reg2_down = on;
     }
 
     pub fn is_blackholed(&self, link: usize) -> (bool, bool) {
@@ -185,6 +193,10 @@ impl Env {
             }
         };
         let stream = 0x4E00 + (path as u64) * 2 + (dir == NetDir::Down) as u64;
+        if dir == NetDir::Down && l.drop_reg2_down && bytes.len() >= 2 && bytes[0] == 0x92 && bytes[1] == 0x01 {
+            stats.inc("fault.handshake_reply_lost");
+            return Vec::new();
+        }
         if bh {
             stats.inc("fault.blackholed_datagram");
             return Vec::new();
